@@ -1,28 +1,19 @@
 """C12 — every token reports where it really is.
 
-Proof: VerylModel.Props.C12 (split_comment_token, end_line/end_column, scanner) — the full-strength
-statement is proved FALSE of the code as it stands (two independent defects) and TRUE of the repaired
-function.  Differential: `hx tokens` parses sources with the real parser and compares every token and
-comment with positions computed by scanning the text; every comment run, token end, scanner input and
-`lineCol` query is replayed through `vmodel tokens`.
+Proof: VerylModel.Props.C12 (split_comment_token, end_line/end_column, scanner): the full-strength
+statement `split_positions_correct` is proved of the code as it stands.  Differential: `hx tokens`
+parses sources with the real parser and compares every token and comment with positions computed by
+scanning the text; every comment run, token end, scanner input and `lineCol` query is replayed through
+`vmodel tokens`.
 
-A failing token is attributed to a known defect only if the defect explains the reported numbers
-EXACTLY (signature below); anything else is a violation."""
+Any token whose reported (text, line, column, pos, length) differs from the oracle is a violation with
+the (shrunk) source as replay."""
 import os
-import re
 from vlib import *
 
 LEVEL = "proof"
-THEOREMS = ["split_positions_correct_false", "split_pos_false", "split_col_false", "split_positions_partial",
-            "split_positions_correct_fixed", "end_line_col_correct", "end_line_col_in_source", "source_order",
-            "source_order_fixed", "scan_partition"]
-
-KEY_POS = "split_comment_token:pos-run-relative"
-KEY_COL = "split_comment_token:column-bytes-after-multibyte"
-KEY_MIXIN = "veryl_walker:mixin_declaration:semicolon-not-visited"
-
-
-MIXIN_SKIP = re.compile(rb"^;(\s*(//[^\n]*(\n|$)|/\*.*?\*/))*\s*$", re.S)
+THEOREMS = ["split_positions_correct", "end_line_col_correct", "end_line_col_in_source", "source_order",
+            "scan_partition", "old_split_positions_correct_false", "old_split_pos_false", "old_split_col_false"]
 
 
 def unhex(h):
@@ -39,145 +30,69 @@ def parse_tok(reply):
         return None
 
 
-def classify_comment(src, base, imp, ora):
-    """Which defects explain the difference between the reported and the true comment token?
-    Returns (keys, unexplained) — every differing field must be accounted for."""
+def describe(imp, ora):
+    """Human-readable difference between a reported and a true token (no attribution: every
+    difference is a violation)."""
+    if ora.startswith("skipped:"):
+        head = ora.split(" ", 1)[0]
+        return f"text passed over by the token walk: {unhex(head[len('skipped:'):].split('@')[0])!r}"
     i, o = parse_tok(imp), parse_tok(ora)
     if i is None or o is None:
-        return [], ["unparsable reply"]
-    (itx, il, ic, ip, iln), (otx, ol, oc, op, oln) = i, o
-    keys, bad = [], []
-    if itx != otx:
-        bad.append("text")
-    if iln != oln:
-        bad.append("length")
-    if il != ol:
-        bad.append("line")
-    if ip != op:
-        # reported = offset inside the run + length, true = run base + offset inside the run
-        if base <= op and ip == (op - base) + oln:
-            keys.append(KEY_POS)
-        else:
-            bad.append(f"pos reported {ip:#x} true {op:#x}")
-    if ic != oc:
-        # reported = true column + (bytes - characters) of the run's text since its last line feed
-        seg = src[base:op]
-        tail = seg[seg.rfind(b"\n") + 1:]
-        try:
-            excess = len(tail) - len(tail.decode("utf-8"))
-        except UnicodeDecodeError:
-            excess = 0
-        if excess > 0 and ic == oc + excess:
-            keys.append(KEY_COL)
-        else:
-            bad.append(f"column reported {ic} true {oc}")
-    return keys, bad
+        return f"reported {imp}; expected {ora}"
+    names = ("text", "line", "column", "pos", "length")
+    diffs = [f"{n} reported {a!r} true {b!r}" for n, a, b in zip(names, i, o) if a != b]
+    return ", ".join(diffs)
 
 
-def classify_token(prev_texts, imp, ora):
-    """A non-comment token differs from the oracle."""
-    if ora.startswith("skipped:"):
-        head, rest = ora.split(" ", 1)
-        skipped = head[len("skipped:"):].split("@")[0]
-        if MIXIN_SKIP.match(unhex(skipped)) and rest == imp:
-            # the text passed over is exactly `;` (and the comments attached to it) and it closes a
-            # `mixin <path>` statement
-            for t in reversed(prev_texts):
-                if t == b"mixin":
-                    return [KEY_MIXIN], []
-                if t in (b";", b"{", b"}"):
-                    break
-        return [], [f"text passed over by the token walk: {unhex(skipped)!r}"]
-    return [], [f"reported {imp} expected {ora}"]
-
-
-def analyse_pos(ctx, d):
+def mismatches(d):
+    """[(src_line, detail)] for every reply of the position log that differs from its oracle."""
     ops = read_lines(f"{d}/pos/ops.txt") or []
     imp = read_lines(f"{d}/pos/impl.txt") or []
     ora = read_lines(f"{d}/pos/oracle.txt") or []
     if not (len(ops) == len(imp) == len(ora)):
-        ctx.violation("hx tokens: position streams differ in length", {"kind": "harness", "lens": [len(ops), len(imp), len(ora)]},
-                      no_input=True, kind="model!=impl")
-        return
-    src, src_line, prev_texts = b"", "", []
-    known = {}          # key -> (len(src), src_line, detail)
-    unexplained = []    # (len(src), src_line, detail)
-    checked = 0
+        return None, 0
+    out, src_line, checked = [], "", 0
     for o, i, r in zip(ops, imp, ora):
         t = o.split()
         if t[0] == "src":
-            src, src_line, prev_texts = unhex(t[1]), o, []
-            if i.startswith("ok"):
-                ctx.distinct(t[1])
+            src_line = o
             if i == "panic":
-                unexplained.append((len(src), src_line, "the parser panicked"))
+                out.append((src_line, "the parser panicked"))
             continue
         if r == "?":
             continue
         checked += 1
-        if t[0] == "t":
-            tok = parse_tok(i)
-            if i != r:
-                keys, bad = classify_token(prev_texts, i, r)
-                for k in keys:
-                    if k not in known or len(src) < known[k][0]:
-                        known[k] = (len(src), src_line, f"{o}: reported {i}; oracle {r}")
-                for b in bad:
-                    unexplained.append((len(src), src_line, f"{o}: {b}"))
-            if tok:
-                prev_texts.append(unhex(tok[0]))
-        elif t[0] == "c":
-            if i != r:
-                keys, bad = classify_comment(src, int(t[2], 16), i, r)
-                for k in keys:
-                    if k not in known or len(src) < known[k][0]:
-                        known[k] = (len(src), src_line, f"{o}: reported {i}; true {r}")
-                for b in bad:
-                    unexplained.append((len(src), src_line, f"{o}: {b} (reported {i}; true {r})"))
-        elif t[0] == "eof":
-            if i != r:
-                unexplained.append((len(src), src_line, f"text after the last token is not covered: {r}"))
+        if i != r:
+            if t[0] == "eof":
+                out.append((src_line, f"text after the last token is not covered: {r}"))
+            else:
+                out.append((src_line, f"{o}: {describe(i, r)}"))
+    return out, checked
+
+
+def analyse_pos(ctx, d):
+    bad, checked = mismatches(d)
+    if bad is None:
+        ctx.violation("hx tokens: position streams differ in length", {"kind": "harness"}, no_input=True, kind="model!=impl")
+        return
     ctx.cov["evaluations"] += checked
-    for k, (n, line, detail) in sorted(known.items()):
-        ctx.violation(f"tokens: {k}: {detail}; source {unhex(line.split()[1])[:120]!r}",
-                      line + "\n", key=k, kind="impl!=oracle")
-    unexplained.sort(key=lambda x: x[0])
+    for o in read_lines(f"{d}/pos/ops.txt") or []:
+        if o.startswith("src "):
+            ctx.distinct(o[4:])
+    bad.sort(key=lambda x: len(x[0]))
     seen = set()
-    for n, line, detail in unexplained:
+    for line, detail in bad:
         if line in seen or len(seen) >= 3:
             continue
         seen.add(line)
         small = shrink_src(ctx, line, detail)
-        ctx.violation(f"tokens: a reported position is wrong and no known defect explains it: {detail}; "
-                      f"source {unhex(small.split()[1])[:200]!r}", small + "\n", kind="impl!=oracle")
-    return known
+        ctx.violation(f"tokens: a reported position is wrong: {detail}; source {unhex(small.split()[1])[:200]!r}",
+                      small + "\n", kind="impl!=oracle")
 
 
 def has_unexplained(ctx, d):
-    ops = read_lines(f"{d}/pos/ops.txt") or []
-    imp = read_lines(f"{d}/pos/impl.txt") or []
-    ora = read_lines(f"{d}/pos/oracle.txt") or []
-    src, prev = b"", []
-    for o, i, r in zip(ops, imp, ora):
-        t = o.split()
-        if t[0] == "src":
-            src, prev = unhex(t[1]), []
-            if i == "panic":
-                return True
-            continue
-        if t[0] == "t":
-            tok = parse_tok(i)
-            if r != "?" and i != r and classify_token(prev, i, r)[1]:
-                return True
-            if tok:
-                prev.append(unhex(tok[0]))
-        elif r != "?" and i != r:
-            if t[0] == "c":
-                if classify_comment(src, int(t[2], 16), i, r)[1]:
-                    return True
-            else:
-                return True
-    return False
+    bad, _ = mismatches(d)
+    return bad is None or bool(bad)
 
 
 def shrink_src(ctx, src_line, detail, budget=60):
@@ -235,21 +150,7 @@ def analyse_model(ctx, d):
     ctx.cov["evaluations"] += len(ops)
     ctx.cov["traces_validated_against_impl"] += per.get("split", {}).get("n", 0)
     ctx.cov.setdefault("distribution", {})["tokens.model_lines"] = per
-    coded_ok = per.get("split", {}).get("model!=impl", 0) == 0
-    fixed_ok = per.get("splitfix", {}).get("model!=impl", 0) == 0
-    if coded_ok and not fixed_ok:
-        ctx.cov["model_in_force"] = "splitCommentToken (as coded; full statement proved false, partial theorem holds)"
-    elif fixed_ok:
-        ctx.cov["model_in_force"] = "splitCommentTokenFixed (split_positions_correct_fixed is the obligation in force)"
-        ctx.notes.append("the real split_comment_token agrees with the REPAIRED model on every run: the fix has landed; "
-                         "switch Core/TokenPos.lean's splitCommentToken to the fixed definition")
-    else:
-        w = first.get(("split", "model!=impl")) or first.get(("splitfix", "model!=impl"))
-        ctx.violation(f"tokens: split_comment_token agrees with neither the as-coded nor the repaired model at `{w['op'][:200]}`: "
-                      f"impl={w['impl'][:200]} model={w['model'][:200]}",
-                      {"kind": "model!=impl", "first_difference": w, "correspondence": "vmodel tokens vs hx tokens"},
-                      no_input=True, kind="model!=impl")
-    for k in ("end", "scan", "lc"):
+    for k in ("split", "end", "scan", "lc"):
         st = per.get(k, {})
         if st.get("impl!=oracle"):
             w = first[(k, "impl!=oracle")]
@@ -299,11 +200,10 @@ def run(ctx):
         for k, v in load_stats(sub).items():
             if k != "samples":
                 ctx.cov.setdefault("distribution", {})[f"tokens.{name}.{k}"] = v
-    known = analyse_pos(ctx, d) or {}
+    analyse_pos(ctx, d)
     analyse_model(ctx, d)
-    for k, (n, line, detail) in sorted(known.items()):
-        ctx.sample(f"{k}: {unhex(line.split()[1])[:80]!r} -> {detail}")
-    ctx.sample("witness /* é */ /* b */ : model [(1,1,pos 8,len 8),(1,10,pos 16,len 7)] = real split_comment_token; true (1,1,0,8),(1,9,9,7)")
+    ctx.sample("/* é */ /* b */ : model = real split_comment_token = oracle: (1,1,pos 0,len 8),(1,9,pos 9,len 7)")
+    ctx.sample("interface B { mixin A; var b: logic; } : the `;` of the mixin statement is visited by the token walk")
     if not ok:
         if not any(not ni for _, _, ni in ctx.violations):
             proof_broken(ctx, "VerylModel.Props.C12 no longer checks")
